@@ -536,6 +536,76 @@ def _return_via_temp(tree: ast.Module) -> None:
         fn.body = new
 
 
+class _AnyAllList(ast.NodeTransformer):
+    """all(<generator>) -> all([<list comprehension>])  (elements are evaluated for value only)"""
+
+    def visit_Call(self, node: ast.Call):
+        self.generic_visit(node)
+        if isinstance(node.func, ast.Name) and node.func.id in ("all", "any") and len(node.args) == 1 and isinstance(node.args[0], ast.GeneratorExp):
+            g = node.args[0]
+            node.args = [ast.ListComp(elt=g.elt, generators=g.generators)]
+        return node
+
+
+class _ContinueGuard(ast.NodeTransformer):
+    """for x in it: if c: continue; REST   ->   for x in it: if not c: REST     (first statement of the loop body only)"""
+
+    def visit_For(self, node: ast.For):
+        self.generic_visit(node)
+        b = node.body
+        if len(b) >= 2 and isinstance(b[0], ast.If) and not b[0].orelse and len(b[0].body) == 1 and isinstance(b[0].body[0], ast.Continue):
+            node.body = [ast.If(test=ast.UnaryOp(op=ast.Not(), operand=b[0].test), body=b[1:], orelse=[])]
+        elif len(b) == 1 and isinstance(b[0], ast.If) and not b[0].orelse and len(b[0].body) >= 1 and not any(isinstance(x, ast.Continue) for s in b[0].body for x in ast.walk(s)):
+            node.body = [ast.If(test=ast.UnaryOp(op=ast.Not(), operand=b[0].test), body=[ast.Continue()], orelse=[])] + b[0].body
+        return node
+
+
+class _NestedIfSplit(ast.NodeTransformer):
+    """if a and b: X   ->   if a: if b: X      (no else branch)"""
+
+    def visit_If(self, node: ast.If):
+        self.generic_visit(node)
+        if not node.orelse and isinstance(node.test, ast.BoolOp) and isinstance(node.test.op, ast.And) and len(node.test.values) == 2:
+            return ast.If(test=node.test.values[0], body=[ast.If(test=node.test.values[1], body=node.body, orelse=[])], orelse=[])
+        return node
+
+
+class _KeysIter(ast.NodeTransformer):
+    """for k in d.keys()  ->  for k in d"""
+
+    def visit_For(self, node: ast.For):
+        self.generic_visit(node)
+        it = node.iter
+        if isinstance(it, ast.Call) and isinstance(it.func, ast.Attribute) and it.func.attr == "keys" and not it.args and not it.keywords:
+            node.iter = it.func.value
+        return node
+
+
+class _CommuteConst(ast.NodeTransformer):
+    """i + 1 -> 1 + i,  2 * k -> k * 2   (one operand an integer constant, the other not a constant)"""
+
+    def visit_BinOp(self, node: ast.BinOp):
+        self.generic_visit(node)
+        if isinstance(node.op, (ast.Add, ast.Mult)):
+            lc = isinstance(node.left, ast.Constant) and type(node.left.value) is int
+            rc = isinstance(node.right, ast.Constant) and type(node.right.value) is int
+            if lc != rc:
+                return ast.BinOp(left=node.right, op=node.op, right=node.left)
+        return node
+
+
+class _DeMorgan(ast.NodeTransformer):
+    """not (a and b) -> not a or not b;   not (a or b) -> not a and not b"""
+
+    def visit_UnaryOp(self, node: ast.UnaryOp):
+        self.generic_visit(node)
+        if isinstance(node.op, ast.Not) and isinstance(node.operand, ast.BoolOp):
+            inner = node.operand
+            op = ast.Or() if isinstance(inner.op, ast.And) else ast.And()
+            return ast.BoolOp(op=op, values=[ast.UnaryOp(op=ast.Not(), operand=v) for v in inner.values])
+        return node
+
+
 def _transformer(cls):
     def apply(tree: ast.Module) -> None:
         new = cls().visit(tree)
@@ -565,6 +635,12 @@ def generic_equiv(files: List[str]) -> List[Variant]:
             ("chain-split", _transformer(_ChainSplit), "a < b < c -> a < b and b < c"),
             ("aug-const", _transformer(_AugConst), "x += 1 -> x = x + 1"),
             ("return-via-temp", _fix(_return_via_temp), "return E -> _result = E; return _result"),
+            ("any-all-list", _transformer(_AnyAllList), "all(generator) -> all([list comprehension])"),
+            ("continue-guard", _transformer(_ContinueGuard), "loop body guarded by `if c: continue` <-> `if not c: body`"),
+            ("nested-if-split", _transformer(_NestedIfSplit), "if a and b: X -> if a: if b: X"),
+            ("keys-iter", _transformer(_KeysIter), "for k in d.keys() -> for k in d"),
+            ("commute-const", _transformer(_CommuteConst), "i + 1 -> 1 + i"),
+            ("de-morgan", _transformer(_DeMorgan), "not (a and b) -> not a or not b"),
         ):
             out.append(Variant(f"equiv-{tag}-{short}", [(f, fn)], "nofire", note=note))
     return out
